@@ -13,13 +13,18 @@ import (
 	"verif/harness/ev"
 )
 
-// evSafe runs one call into the library: a panic becomes a PanicInfo, and so does a call that does not return within a minute
+// evSafeLimit: no library call in these checks takes more than milliseconds; five minutes is out of reach of any load the machine can be
+// under (the first version used one minute and time.After: the histories layer of C13's thorough tier makes millions of calls per minute,
+// each left a pending timer behind, and on a saturated machine one call was reported as hanging - a false alarm, corrected).
+const evSafeLimit = 5 * time.Minute
+
+// evSafe runs one call into the library: a panic becomes a PanicInfo, and so does a call that does not return within evSafeLimit
 // (no library call in these checks takes more than milliseconds; the frame "hang" makes it a keyed difference like a panic, and it
 // is printed at once, so that the driver still has it when the runaway goroutine later exhausts memory or the time limit).
 func evSafe(fn func()) *ev.PanicInfo {
-	pi, ok := ev.Timed(time.Minute, fn)
+	pi, ok := ev.Timed(evSafeLimit, fn)
 	if !ok {
-		return &ev.PanicInfo{Value: "the call did not return within 1m0s", Frame: "hang"}
+		return &ev.PanicInfo{Value: fmt.Sprintf("the call did not return within %v", evSafeLimit), Frame: "hang"}
 	}
 	return pi
 }
